@@ -159,3 +159,93 @@ def uniform_workers(ctx, P, crate, fam, rule):
                       "(e.g. without the packet filter), so results depend on which worker a connection hashes to" % (
                           shared[0], "moved out with " + ",".join(moved) if moved else "not a clone of the shared value"), ctx.loc(b, i))
     ctx.floor(rule, "%s: shared values captured by the worker spawn closure" % fam, n, 2)
+    # the per-worker limits are the configured ones: every WorkerConfig field is the like-named constructor parameter, unmodified
+    # (each worker is documented to get the full max_connections / batch_size / timeout, as the sequential analyzer does)
+    m = 0
+    for cb in [b] + P.closures_of(b.path):
+        CS = T.Slicer(cb, P)
+        for i, j, s in cb.iter_stmts():
+            if s["k"] == "assign" and s["r"]["k"] == "agg" and s["r"]["ak"] == "adt" and (s["r"].get("path") or "").endswith("WorkerConfig"):
+                for fname, o in zip(s["r"]["fields"], s["r"]["ops"]):
+                    m += 1
+                    t = T.strip(T.expand_upvars(P, cb, CS.operand(o, i, j)))
+                    while t[0] in ("upvar",):
+                        t = T.strip(t[2])
+                    while t[0] in ("ref", "deref"):
+                        t = T.strip(t[2] if t[0] == "ref" else t[1])
+                    plain = t[0] == "param" and t[2] == fname
+                    ctx.check(plain, rule, "%s:worker-config:%s" % (fam, fname), "WorkerConfig.%s = parameter %s" % (fname, fname),
+                              "WorkerConfig.%s is %s, not the configured `%s`: every worker runs with a different limit than the sequential analyzer "
+                              "(e.g. a fraction of max_connections, so connections within the configured capacity evict each other)" % (fname, T.pp(t)[:80], fname), ctx.loc(cb, i))
+    ctx.floor(rule, "%s: WorkerConfig fields" % fam, m, 3)
+
+
+def exit_conditions(ctx, P, fam, wl, wp, rule):
+    """A worker only stops when it is told to (shutdown flag), when its queue is disconnected or when nobody listens to its results:
+    no packet - in particular none the analyzer rejects with an error - can end the service loop."""
+    from ..engine import cfg as C
+    S = T.Slicer(wl, P)
+    loops = C.loops(wl)
+    if not loops:
+        ctx.cannot(rule, fam + ":worker_loop:exits", "service loop not found", ctx.loc(wl))
+        return
+    outer = max(loops.items(), key=lambda kv: len(kv[1]))
+    L = outer[1]
+
+    def allowed(conds):
+        why = None
+        for c in conds:
+            txt = T.pp(c[1])[:200] if len(c) > 1 and isinstance(c[1], tuple) else ""
+            if c[0] == "bool" and T.has_call(c[1], "::load") and c[2] is True and any(x[0] == "param" and "shutdown" in (x[2] or "") for x in T.walk(c[1])):
+                why = "shutdown flag"
+            if c[0] in ("variant", "variant_in") and c[3] is True and (c[2] == "Disconnected" or (isinstance(c[2], tuple) and "Disconnected" in c[2])):
+                why = "queue disconnected"
+            if c[0] in ("variant",) and T.has_call(c[1], "Sender::<T>::send") and ((c[2] == "Err") == c[3]):
+                why = "result channel closed"
+            if c[0] == "bool" and T.has_call(c[1], "::is_err") and T.has_call(c[1], "Sender::<T>::send") and c[2] is True:
+                why = "result channel closed"
+            if c[0] == "bool" and T.has_call(c[1], "::is_ok") and T.has_call(c[1], "Sender::<T>::send") and c[2] is False:
+                why = "result channel closed"
+            if c[0] == "bool" and c[1][0] == "call" and c[1][1].endswith("::process_packet") and c[2] is False:
+                why = "process_packet said stop"
+            if c[0] in ("variant", "variant_in") and T.has_call(c[1], "try_recv") :
+                pass
+        return why
+    n = 0
+    bad = []
+    for x in sorted(L):
+        t = wl.blocks[x]["t"]
+        outs = [y for y in wl.succs(x) if y not in L and wl.blocks[y]["t"]["k"] != "unreachable"]
+        if t["k"] == "return":
+            outs = [None]
+        for y in outs:
+            conds = list(Q.canon_conds(P, T.dom_conds(wl, S, x)))
+            if y is not None:
+                be = T.branch_edges(wl, S, x)
+                if be is not None and y in be[1]:
+                    conds += Q.canon_cond(P, be[0], be[1][y], x)
+            n += 1
+            why = allowed(conds)
+            if why is None:
+                bad.append((x, [c[0] + ":" + (T.pp(c[1])[:50] if isinstance(c[1], tuple) else str(c[1])) for c in conds][-3:]))
+    ctx.check(not bad, rule, fam + ":worker_loop:exits", "%d ways out of the service loop, each under shutdown / disconnect / closed result channel" % n,
+              "the worker can leave its service loop for another reason (%s): packets dispatched to it afterwards are reported Queued and never analysed" % (bad[:2],),
+              ctx.loc(wl, bad[0][0]) if bad else None)
+    ctx.floor(rule, "%s: exits of the worker service loop" % fam, n, 3)
+    # a process_packet that returns `keep running?`: false only when the result could not be delivered
+    if wp is not None and wp.locals[0]["ty"] == "bool":
+        SP = T.Slicer(wp, P)
+        from ..engine import tables as TB
+        badr = []
+        m = 0
+        for (rb, j, term, _c) in TB.return_sites(wp, P):
+            tt = T.strip(term)
+            m += 1
+            if tt[0] == "const" and tt[1] is True:
+                continue
+            if tt[0] == "call" and tt[1].endswith("::is_ok") and T.has_call(tt, "Sender::<T>::send"):
+                continue
+            badr.append((rb, T.pp(tt)[:80]))
+        ctx.check(not badr, rule, fam + ":process_packet:keep-running", "process_packet answers `stop` only when the result channel is closed (%d return sites)" % m,
+                  "process_packet can tell the worker to stop for another reason (%s): one packet the analyzer rejects ends the worker thread" % (badr[:2],),
+                  ctx.loc(wp, badr[0][0]) if badr else None)
